@@ -129,7 +129,7 @@ Record xcase := {
 }.
 
 Definition xc_world (c : xcase) : xworld :=
-  {| xw_sw := {| sw_w := {| w_store := xc_store c; w_rv := xc_rv c; w_uid := xc_uid c |}; sw_sets := xc_sets c |};
+  {| xw_sw := {| sw_w := {| w_store := xc_store c; w_rv := xc_rv c; w_uid := xc_uid c |}; sw_sets := xc_sets c; sw_phases := []; sw_nss := [] |};
      xw_refs := xc_refs c; xw_sl := {| xs_store := xc_slices c; xs_rv := xc_srv c |} |}.
 
 Definition xmodel (c : xcase) : xworld * list xev * sres :=
